@@ -63,6 +63,16 @@ def _alarm(signum, frame):
 CASE_TIMEOUT = int(os.environ.get("VERIF_CASE_TIMEOUT", "240"))
 
 
+def kick():
+    """Re-arm the watchdog. A case that makes MANY library calls in a row (a fault plan each, a flag assignment each) calls this
+    between them: the watchdog bounds the time of one unit of library work, not the length of the harness loop."""
+    import signal
+    try:
+        signal.alarm(CASE_TIMEOUT)
+    except Exception:
+        pass
+
+
 def _work(arg):
     import signal
     try:
